@@ -31,6 +31,8 @@ for sd in $seeds; do
     run_suite > /tmp/${TAG}_suite_with.txt
     if diff -q <(grep -v Summary /tmp/confirm_head_suite.txt) <(grep -v Summary /tmp/${TAG}_suite_with.txt) >/dev/null; then suite_same=true; else suite_same=false; fi
     nfail=$(grep Summary /tmp/${TAG}_suite_with.txt | tr -s ' ')
+    diff <(grep -v Summary /tmp/confirm_head_suite.txt) <(grep -v Summary /tmp/${TAG}_suite_with.txt) > $d/suite_diff.txt || true
+    [ -s $d/suite_diff.txt ] || rm -f $d/suite_diff.txt
   fi
   python3 - "$sd" "$applies" "$without" "$with" "$suite_same" "$nfail" <<'PY' > $d/confirm.json
 import json,sys
